@@ -609,3 +609,68 @@ Proof.
   - exact (f_pb_stopped V silence identity tw_of st_of m iv Hm).
   - exact (f_pb_table V silence identity tw_of st_of m iv Hm).
 Qed.
+
+(** * the whole calls of [Multi.v] are compositions of the protocol steps of [Model.v] *)
+Lemma bufs_advance : forall K c bf s, bufs (advance K c bf s) = bf.
+Proof. intros. unfold advance. destruct (S c <? K); reflexivity. Qed.
+
+(** [slot_write] is a whole [CommandWriter::write] of the fine-grained system (three writer steps) *)
+Lemma do_write_is_slot_write : forall s c v p, wp s = WIdle -> prog s = (c, v) :: p ->
+  bufs (do_write s) c = w_publish v (cs s) (cd s) (w_fill2 v (w_fill1 v (bufs s c))) /\
+  (cs s = cd s -> bufs (do_write s) c = slot_write (cs s) v (bufs s c)) /\
+  (forall c', c' <> c -> bufs (do_write s) c' = bufs s c').
+Proof.
+  intros s c v p Hw Hp. unfold do_write.
+  assert (E1 : wstep s = Sys (upd (bufs s) c (w_fill1 v (bufs s c))) p (WHalf c v) (rp s) (cs s) (cd s)).
+  { unfold wstep. rewrite Hw, Hp. reflexivity. }
+  rewrite E1. unfold wstep at 2. cbn [wp bufs prog rp cs cd]. unfold wstep. cbn [wp bufs prog rp cs cd].
+  rewrite !upd_eq. repeat split.
+  - intros E. unfold slot_write. rewrite <- E. reflexivity.
+  - intros c' Hn. rewrite !upd_neq by exact Hn. reflexivity.
+Qed.
+
+(** [slot_read] is the reader's steps on one kind: one step if the dirty bit is clear, four if set *)
+Lemma drain_is_slot_read : forall K s c, rp s = RDrain c RStart ->
+  let s' := if dirty (bufs s c) then rstep K (rstep K (rstep K (rstep K s))) else rstep K s in
+  bufs s' c = snd (slot_read (cs s) (bufs s c)) /\
+  (forall c', c' <> c -> bufs s' c' = bufs s c') /\
+  (rp s' = RBetween \/ rp s' = RDrain (S c) RStart).
+Proof.
+  intros K s c Hr. unfold slot_read. destruct (dirty (bufs s c)) eqn:D; cbn zeta.
+  - set (b1 := r_swap (bufs s c)).
+    set (f1 := upd (bufs s) c b1).
+    assert (E1 : rstep K s = Sys (bufs s) (prog s) (wp s) (RDrain c RSaw) (cs s) (cd s)).
+    { unfold rstep. rewrite Hr, D. reflexivity. }
+    assert (E2 : rstep K (rstep K s) = Sys f1 (prog s) (wp s) (RDrain c RSwapped) (cs s) (cd s)).
+    { rewrite E1. reflexivity. }
+    destruct (r_copy1 b1) as [d a] eqn:C1.
+    assert (E3 : rstep K (rstep K (rstep K s)) = Sys f1 (prog s) (wp s) (RDrain c (RHalf d a)) (cs s) (cd s)).
+    { rewrite E2. unfold rstep. cbn [rp bufs prog wp cs cd]. unfold f1 at 1. rewrite upd_eq, C1. reflexivity. }
+    assert (F : f1 c = b1) by (unfold f1; apply upd_eq).
+    assert (E4 : rstep K (rstep K (rstep K (rstep K s))) =
+                 advance K c (upd f1 c (r_return (cs s) d a (r_copy2 b1) b1))
+                   (Sys f1 (prog s) (wp s) (RDrain c (RHalf d a)) (cs s) (cd s))).
+    { rewrite E3. unfold rstep. cbn [rp bufs prog wp cs cd]. rewrite F. reflexivity. }
+    rewrite E4, bufs_advance. cbn [snd]. repeat split.
+    + apply upd_eq.
+    + intros c' Hn. unfold f1. rewrite !upd_neq by exact Hn. reflexivity.
+    + unfold advance. destruct (S c <? K); cbn [rp]; auto.
+  - assert (E1 : rstep K s = advance K c (upd (bufs s) c (r_none (cs s) (bufs s c))) s).
+    { unfold rstep. rewrite Hr, D. reflexivity. }
+    rewrite E1, bufs_advance. cbn [snd]. repeat split.
+    + apply upd_eq.
+    + intros c' Hn. rewrite upd_neq by exact Hn. reflexivity.
+    + unfold advance. destruct (S c <? K); cbn [rp]; auto.
+Qed.
+
+Lemma p_slot_calls :
+  (forall s c v p, wp s = WIdle -> prog s = (c, v) :: p ->
+     bufs (do_write s) c = w_publish v (cs s) (cd s) (w_fill2 v (w_fill1 v (bufs s c))) /\
+     (cs s = cd s -> bufs (do_write s) c = slot_write (cs s) v (bufs s c)) /\
+     (forall c', c' <> c -> bufs (do_write s) c' = bufs s c')) /\
+  (forall K s c, rp s = RDrain c RStart ->
+     let s' := if dirty (bufs s c) then rstep K (rstep K (rstep K (rstep K s))) else rstep K s in
+     bufs s' c = snd (slot_read (cs s) (bufs s c)) /\
+     (forall c', c' <> c -> bufs s' c' = bufs s c') /\
+     (rp s' = RBetween \/ rp s' = RDrain (S c) RStart)).
+Proof. exact (conj do_write_is_slot_write drain_is_slot_read). Qed.
